@@ -574,7 +574,7 @@ func markdownEscape(w strWriter, s string, allowHTML bool) error {
 			}
 			esc = slash
 		case ' ', '\t':
-			if 0 < i && i < len(s)-1 {
+			if 0 < i && i < len(s)-1 && !(s[i] == '\t' && s[i-1] == '\n') {
 				if c := s[i+1]; c != ' ' && c != '\t' {
 					continue
 				}
